@@ -673,9 +673,11 @@ def fault_table(p, led, tier):
                     c.fields["resources"][nm_] = it.instantiate(lock, [], dict(resource_id=nm_, allow_preemption=(nm_ == "r1")))
                 acq = p.find_method(ctrl, "acquire_resource")
 
+                took = []
+
                 @stub
                 def work(interp, args, kwargs):
-                    interp.call_fi(acq, [c, urgent, "r1"], {})        # the urgent operation pre-empts r1
+                    took.append(interp.call_fi(acq, [c, urgent, "r1"], {}))        # the urgent operation pre-empts r1
                     if _ending == "killed from outside":
                         ctx = c.fields["active_operations"].get("op")
                         if ctx is not None and abort_m is not None:
@@ -687,11 +689,13 @@ def fault_table(p, led, tier):
                     it.call_fi(execop, [sysobj, "op", "agent", work, list(_order), None, 5], {})
                 except PyRaise as e:
                     return dict(raised=repr(e.exc))
-                return dict(owners={nm_: c.fields["resources"][nm_].fields["owner"] for nm_ in ("r1", "r2")}, active="op" in c.fields["active_operations"])
+                return dict(owners={nm_: c.fields["resources"][nm_].fields["owner"] for nm_ in ("r1", "r2")}, active="op" in c.fields["active_operations"], preempted=bool(took))
             try:
                 paths = explore(go_p, max_paths=400)
             except Imprecise as e:
                 raise AnchorError(f"pre-emption scenario could not be interpreted: {e}")
+            if not any(r.get("preempted") for _, r in paths):
+                raise AnchorError(f"pre-emption scenario ({ending}, {list(order)}): the work function never ran, so nothing was pre-empted")
             for _, r in paths:
                 pre_paths += 1
                 tag = f"acquire {list(order)}, r1 pre-empted during work, operation {ending}"
@@ -702,7 +706,7 @@ def fault_table(p, led, tier):
                     pre_bad.append(f"{tag}: the operation is still listed as active")
                 if r["owners"]["r2"] == "op":
                     pre_bad.append(f"{tag}: r2 is still owned by the ended operation (the clean-up gave up after the refused release of the pre-empted r1)")
-                if r["owners"]["r1"] not in ("urgent",):
+                if r["preempted"] and r["owners"]["r1"] not in ("urgent",):       # (an operation refused before its work ran was never pre-empted)
                     pre_bad.append(f"{tag}: r1 ends owned by {r['owners']['r1']!r}, not by the operation that pre-empted it")
     keyp = "CoordinationSystem.execute_operation ▸ a resource pre-empted mid-operation does not strand the others (3 endings × 2 acquisition orders)"
     if pre_bad:
